@@ -1,5 +1,5 @@
 """C07 — compilation never crashes or hangs, whatever the input text: streams."""
-import os, json
+import os, json, re
 from ..core import Stream, hx, unhx, VERIF
 from .. import mml
 
@@ -84,6 +84,7 @@ def streams(tier, rng, P, only=None, cases=None):
                                    "SysEx$=f0,41,10,42,12,{40,00,7f,00},f7; ResetGS MasterVolume(100)", "PLAY({c d},{e f}) TrackSync KeyFlag+(fc) KeyShift(2) c"])
             src = base
             for _ in range(rng.randrange(1, 4)): src = mutate(rng, src)
+            src = re.sub(r"\d{5,}", lambda m: m.group(0)[:3], src)      # counts/lengths/track numbers stay <= 999 (larger ones are work the program asks for)
             cs.append(dict(req="compile %s 0 en lib" % hx(src), src=src, show=repr(src)[:200], key="m%d" % i))
         for j, s in enumerate(samples):
             cs.append(dict(req="compile %s 0 en lib" % hx(s), src=s, show="sample %d" % j, key="sample%d" % j))
